@@ -80,6 +80,7 @@ class PyReader:
         self.hazards: list = []
         self._globals_cache: dict = {}
         self._decorated: dict = {}
+        self._module_initialised = False
         self._globals_busy: set = set()
 
     def _imports(self, module: str, name: str) -> bool:
@@ -89,6 +90,13 @@ class PyReader:
         """hook: value of a module-level name / attribute chain (None = not known). Default: a name bound exactly once at module level by a
         plain assignment is evaluated on demand (dispatch tables, constants)."""
         if isinstance(n, ast.Name):
+            if not self._module_initialised:
+                # decorators with effects on module-level tables (`@register(Key)` filling a dispatch dict) run when the module is imported: replay them once,
+                # in source order, before any module-level value is consulted
+                self._module_initialised = True
+                for st in self.module.body:
+                    if isinstance(st, ast.FunctionDef) and any(isinstance(d, ast.Call) and isinstance(d.func, ast.Name) and d.func.id in self.functions for d in st.decorator_list):
+                        self.decorated(st.name)
             if n.id in self._globals_cache:
                 return self._globals_cache[n.id]
             defs = [st for st in self.module.body if (isinstance(st, ast.Assign) and len(st.targets) == 1 and isinstance(st.targets[0], ast.Name) and st.targets[0].id == n.id)
@@ -124,7 +132,9 @@ class PyReader:
         for d in reversed(fn.decorator_list):
             if isinstance(d, ast.Name) and d.id in self.functions:
                 val = self.call(d.id, [val])
-            elif dotted(d) in self.TRANSPARENT_DECORATORS:
+            elif isinstance(d, ast.Call) and isinstance(d.func, ast.Name) and d.func.id in self.functions:
+                val = self.apply_value(self.ev(d, {}, {}), [val], d, {})  # @register(Key): the factory's result applied to the function
+            elif dotted(d) in self.TRANSPARENT_DECORATORS or (isinstance(d, ast.Call) and dotted(d.func) in self.TRANSPARENT_DECORATORS):
                 continue
             else:
                 raise AnalysisError(f"abstract evaluation ({self.where}): decorator `{norm(d, 40)}` of {name} is outside the supported subset")
@@ -225,6 +235,8 @@ class PyReader:
                 self.assign(s.targets[0], self.ev(s.value, env, fns), env, s)
             elif isinstance(s, ast.AnnAssign) and s.value is not None:
                 self.assign(s.target, self.ev(s.value, env, fns), env, s)
+            elif isinstance(s, ast.AnnAssign):
+                continue  # a bare annotation declares, it binds nothing
             elif isinstance(s, ast.If):
                 t = self.truthy(self.ev(s.test, env, fns), s.test)
                 self.block(s.body if t else s.orelse, env, fns)
@@ -399,6 +411,8 @@ class PyReader:
                 return ("closure", fns[n.id], env, fns)  # a nested function as a value: keeps the variables of its defining scope
             if n.id in self.functions:
                 return FnRef(n.id)
+            if n.id in ("add", "mul", "sub", "truediv", "neg") and self._imports("operator", n.id):
+                return ("operator", n.id)
             g = self.global_value(n)
             if g is not None:
                 return g
@@ -613,8 +627,12 @@ class PyReader:
             return self.call_def(fval[1], args, kwargs, fns)
         if isinstance(fval, tuple) and len(fval) == 3 and fval[0] == "bound":
             return self.call(fval[1], [fval[2]] + list(args), kwargs, fns)
+        if isinstance(fval, tuple) and len(fval) == 2 and fval[0] == "operator" and fval[1] == "neg" and len(args) == 1:
+            fake = ast.UnaryOp(op=ast.USub(), operand=ast.Name(id="__op_l__", ctx=ast.Load()))
+            ast.copy_location(fake, n)
+            return self.ev(fake, {"__op_l__": args[0]}, fns)
         if isinstance(fval, tuple) and len(fval) == 2 and fval[0] == "operator" and len(args) == 2:
-            fake = ast.BinOp(left=ast.Name(id="__op_l__", ctx=ast.Load()), op=ast.Add() if fval[1] == "add" else ast.Mult(), right=ast.Name(id="__op_r__", ctx=ast.Load()))
+            fake = ast.BinOp(left=ast.Name(id="__op_l__", ctx=ast.Load()), op={"add": ast.Add(), "mul": ast.Mult(), "sub": ast.Sub(), "truediv": ast.Div()}[fval[1]], right=ast.Name(id="__op_r__", ctx=ast.Load()))
             ast.copy_location(fake, n)
             return self.ev(fake, {"__op_l__": args[0], "__op_r__": args[1]}, fns)
         self.fail(n, "call of a value that is not a known function")
@@ -744,11 +762,20 @@ class PyReader:
         r = self.hook_call(n, env, fns)
         if r is not NotImplemented:
             return r
+        if isinstance(n.func, (ast.Call, ast.Subscript, ast.IfExp)):
+            # the callee is itself computed: next(candidates, default)(expr), table[key](expr)
+            fval = self.ev(n.func, env, fns)
+            args_ = []
+            for a in n.args:
+                if isinstance(a, ast.Starred):
+                    args_ += list(self.ev(a.value, env, fns))
+                else:
+                    args_.append(self.ev(a, env, fns))
+            return self.apply_value(fval, args_, n, fns, {k.arg: self.ev(k.value, env, fns) for k in n.keywords if k.arg})
         f = dotted(n.func) or ""
         name = f.split(".")[-1]
         if name == "reduce" and len(n.args) in (2, 3):
-            fval = self.ev(n.args[0], env, fns) if not (isinstance(n.args[0], ast.Name) and n.args[0].id in ("add", "mul") and self._imports("operator", n.args[0].id)) \
-                else ("operator", n.args[0].id)
+            fval = self.ev(n.args[0], env, fns)
             seq = self.ev(n.args[1], env, fns)
             if not isinstance(seq, list):
                 self.fail(n, "reduce over a non-concrete sequence")
@@ -771,6 +798,25 @@ class PyReader:
             if len(n.args) == 2:
                 return self.ev(n.args[1], env, fns)
             raise Raised("StopIteration", getattr(n, "lineno", 0))
+        if name == "map" and len(n.args) >= 3:
+            fval = self.ev(n.args[0], env, fns)
+            seqs = [self.ev(a, env, fns) for a in n.args[1:]]
+            if not all(isinstance(q_, list) for q_ in seqs):
+                self.fail(n, "map over a non-concrete sequence")
+            return [self.apply_value(fval, list(t_), n, fns) for t_ in zip(*seqs)]
+        if name == "chain" and not isinstance(n.func, ast.Attribute):
+            out = []
+            for a in n.args:
+                q_ = self.ev(a, env, fns)
+                if not isinstance(q_, list):
+                    self.fail(n, "chain of a non-concrete iterable")
+                out += q_
+            return out
+        if f.endswith("chain.from_iterable") and len(n.args) == 1:
+            q_ = self.ev(n.args[0], env, fns)
+            if not (isinstance(q_, list) and all(isinstance(x_, list) for x_ in q_)):
+                self.fail(n, "chain.from_iterable of a non-concrete iterable")
+            return [y_ for x_ in q_ for y_ in x_]
         if name == "map" and len(n.args) == 2 and isinstance(n.args[0], ast.Lambda) and len(n.args[0].args.args) == 1:
             seq = self.ev(n.args[1], env, fns)
             if not isinstance(seq, list):
@@ -781,6 +827,12 @@ class PyReader:
                 e2[n.args[0].args.args[0].arg] = x
                 out.append(self.ev(n.args[0].body, e2, fns))
             return out
+        if name == "map" and len(n.args) == 2 and not (isinstance(n.args[0], ast.Name) and (n.args[0].id in fns or n.args[0].id in self.functions)) and not isinstance(n.args[0], ast.Lambda):
+            fval = self.ev(n.args[0], env, fns)
+            seq = self.ev(n.args[1], env, fns)
+            if not isinstance(seq, list):
+                self.fail(n, "map over a non-concrete sequence")
+            return [self.apply_value(fval, [x_], n, fns) for x_ in seq]
         if name == "map" and len(n.args) == 2 and isinstance(n.args[0], ast.Name):
             seq = self.ev(n.args[1], env, fns)
             if not isinstance(seq, list):
